@@ -127,7 +127,7 @@ class Verifier(object):
         self.reports = {}
 
     # ------------------------------------------------------------------ VC generation
-    def gen_function(self, qualname, case_range=None):
+    def gen_function(self, qualname, case_range=None, shard=None):
         rep = FunctionReport(qualname)
         self.reports[qualname] = rep
         c = self.registry.get(qualname)
@@ -149,7 +149,7 @@ class Verifier(object):
                 def run(path, m=m, case=case):
                     self._run_path(m, path, c, module, node, qualname, case, rep)
 
-                paths = explore(run)
+                paths = explore(run, shard=shard)
                 rep.paths += len(paths)
                 for p in paths:
                     rep.obligations.extend(p.obligations)
